@@ -476,7 +476,7 @@ TIE_FILES = {   # tie file -> functions of pyerrors/obs.py it needs regenerated
     "Tie_window.v": ["gamma_method_window_search", "gamma_method_tauexp_search", "gamma_method_window_tauint", "gamma_method_window_dvalue_sq"],
     "Tie_tauint.v": ["gamma_method_normalise", "gamma_method_rho", "gamma_method_n_tauint", "gamma_method_dtauint_radicand", "gamma_method_dtauint_factor"],
     "Tie_corr.v": ["corr_thin", "corr_reverse", "corr_roll", "corr_symmetric", "corr_anti_symmetric", "corr_add_corr", "corr_mul_corr", "corr_add_scalar", "corr_mul_scalar"],
-    "Tie_projected.v": ["corr_projected_lists"],
+    "Tie_projected.v": ["corr_projected_single", "corr_projected_lists"],
     "Tie_corrfit.v": ["corr_fit_xs", "corr_fit_ys"],
     "Tie_plateau.v": ["corr_plateau_avg"],
     "Tie_meffroot.v": ["m_eff_root_loop"],
